@@ -170,7 +170,7 @@ const COMMENT_BODIES: &[&str] = &[
 ];
 pub const OSCAT_OPEN_MARK: &str = "(*@KEY@:DESCRIPTION*)";
 pub const OSCAT_CLOSE_MARK: &str = "(*@KEY@:END_DESCRIPTION*)";
-const NON_ASCII_BODIES: &[&str] = &[" é ", " ÄÖÜ ", " €uro ", " ß→∑ ", " 漢字 ", " 😀 "];
+const NON_ASCII_BODIES: &[&str] = &[" é ", " ÄÖÜ ", " €uro ", " ß→∑ ", " 漢字 ", " 😀 ", " a\u{a0}b ", " x\u{200b}y ", "\u{3000}", " \u{feff} "];
 
 fn comment(t: &mut Tape, o: &SpellOpts) -> String {
     // comments that are OSCAT description markers (the text preprocessor blanks from the first
